@@ -403,6 +403,15 @@ macro "py_exec" "[" defs:Lean.Parser.Tactic.simpLemma,* "]" : tactic =>
       Int.reduceLT, Int.reduceLE, Int.reduceGT, Int.reduceGE, Int.reduceEq, Int.reduceNe, Int.reduceDiv, Int.reduceMod,
       Int.one_mul, Int.mul_one, Int.zero_add, Int.add_zero, Int.sub_zero])
 
+/-- close `f a₁ … = f b₁ …` whose arguments are equal by linear arithmetic (e.g. a reassociated sum
+    under a division by a variable, which `omega` cannot see through) -/
+macro "py_congr" : tactic =>
+  `(tactic| first
+    | rfl
+    | omega
+    | (congr 1 <;> first | rfl | omega | (congr 1 <;> first | rfl | omega | (congr 1 <;> first | rfl | omega |
+        (congr 1 <;> first | rfl | omega | (congr 1 <;> first | rfl | omega))))))
+
 open Lean Elab Tactic Meta in
 /-- case split on the condition of the outermost-leftmost `if` of the goal and rewrite *every* `if`
     on that condition (the translated source and the model branch on the same conditions, so both
